@@ -59,7 +59,7 @@ Configured ==
   /\ UNCHANGED <<sess, beh, conn, cs, pending, closes, alive>>
 DroppedWhileWaiting ==
   \* the connection goes away (possibly while the plugin's Configure handler runs), or the plugin rejects its configuration
-  /\ st = "waitcfg" /\ beh \in {"drop-after-register", "drop-in-configure", "configure-rejected"}
+  /\ st = "waitcfg" /\ beh \in {"drop-after-register", "drop-in-configure", "configure-rejected", "configure-badmask"}
   /\ ~AsIs                                     \* as-is: Start waits for ever (D8)
   /\ st' = "idle" /\ result' = "error" /\ conn' = "none" /\ alive' = [alive EXCEPT ![sess] = FALSE]
   /\ UNCHANGED <<sess, beh, cs, est, pending, closes>>
